@@ -25,6 +25,9 @@ type sccRun struct {
 	BySeverity [4]int   `json:"by_severity"` // low, medium, high, critical
 	Has        bool     `json:"has"`
 	SortedOK   bool     `json:"members_sorted"`
+	Raw        [][]int  `json:"raw"`      // Tarjan's components in EMISSION order, members as emitted
+	Indices    []int    `json:"indices"`  // index assigned to each module by the depth-first search
+	LowLinks   []int    `json:"lowlinks"` // final low-link of each module
 }
 
 func init() {
@@ -76,6 +79,18 @@ func init() {
 				run.Cycles = append(run.Cycles, c.m)
 				run.Severities = append(run.Severities, c.sev)
 				run.Sizes = append(run.Sizes, c.sz)
+			}
+			rawC, ind, low := analyzer.VerifTarjanTrace(g)
+			run.Raw, run.Indices, run.LowLinks = [][]int{}, make([]int, in.N), make([]int, in.N)
+			for _, c := range rawC {
+				m := []int{}
+				for _, s := range c {
+					m = append(m, idx[s])
+				}
+				run.Raw = append(run.Raw, m)
+			}
+			for i := 0; i < in.N; i++ {
+				run.Indices[i], run.LowLinks[i] = ind[name(i)], low[name(i)]
 			}
 			runs = append(runs, run)
 		}
